@@ -196,7 +196,9 @@ def step (d : DS) (ws : List String) : DS × String :=
     | some keys => let σ := d.st.apply (.compact keys); ({ d with st := σ }, showState σ)
     | none => (d, "bad-op")
   | ["reopen"] =>
-    let σ := d.st.step (.reopen d.st.pending d.st.refs)
+    -- close + open: the manifest snapshot (`createFamilySnapshot`, shape regenerated) replayed into
+    -- fresh versions
+    let σ := d.st.restart Generated.C04.snapshotRefFamilyIsLoopVar (fun _ => 0) id
     ({ d with st := σ }, showState σ)
   | ["read", tgt] =>
     match tgt.toNat? with
